@@ -145,9 +145,10 @@ example :
     diffAfterText [mk 3 b!"foo_bar" b!"a", mk 12 b!"fooBar" b!"alphaBetaGamma", mk 20 b!"FOO_BAR" b!"A"]
       = some b!"é a, alphaBetaGamma; A\r\n" := by decide
 
-/-- Full statement without the disjointness hypothesis (false today, refuted by `C15_witness_duplicate_hunks`): whatever
+/-- The statement without the disjointness hypothesis is false (`C15_needs_disjoint_hunks`); it mattered for real plans until
+    4d2e5a7 (duplicate hunks from overlapping search roots), C03.multi_root_sort_key_unique now rules such plans out: whatever
     hunks a plan lists for a line, the `+` text is what the apply loop makes of that line. -/
-def C15_full : Prop :=
+def C15_without_disjointness : Prop :=
   ∀ (line : Bytes) (hs : List Hunk), hs ≠ [] → (∀ h ∈ hs, h.lineBefore = line) →
     (∀ h ∈ hs, h.content ≠ [] ∧ h.content <+: line.drop h.byteOffset) →
     (∀ h ∈ hs, h.lineAfter = line.take h.byteOffset ++ h.replace ++ line.drop (h.byteOffset + h.content.length)) →
@@ -165,21 +166,21 @@ private def dupH2 : Hunk :=
 
 /-- Disjointness is needed: with every hunk listed twice (nested / repeated search roots) the preview
     silently skips the second copy, apply splices it again at the original offsets.  Exactly what the real
-    binary does on `renamify plan foo_bar baz . sub` + `apply`. -/
-theorem C15_witness_duplicate_hunks :
+    binary did on `renamify plan foo_bar baz . sub` + `apply` before 4d2e5a7. -/
+theorem C15_needs_disjoint_hunks :
     diffAfterText [dupH1, dupH1, dupH2, dupH2] = some b!"x baz y baz tail\n" ∧
     applyEdits dupLine [toEdit dupH1, toEdit dupH1, toEdit dupH2, toEdit dupH2] = .ok b!"x bazazil\n" := by decide
 
-/-- same fact under the id of the listed finding -/
-theorem C15_witness_duplicate_hunks_preview_vs_apply :
+/-- the same, as an inequality between preview and apply (the repaired finding duplicate_hunks_preview_vs_apply) -/
+theorem C15_beforefix_duplicate_hunks_preview_vs_apply :
     diffAfterText [dupH1, dupH1, dupH2, dupH2] ≠
       (match applyEdits dupLine [toEdit dupH1, toEdit dupH1, toEdit dupH2, toEdit dupH2] with
        | .ok b => some b | .error _ => none) := by decide
 
 /-- Consistency with the file (C03) is needed: the literal planner's line-relative offsets, read as file offsets by apply,
     hit a span with the same text.  `renamify replace --no-regex foo foobar` on "foo foo\nfoo\n": the previews show
-    `foobar foobar` / `foobar`, apply (exit 0) writes `foobarbfoobarfoo` / `foo`.  Exactly what the real binary does. -/
-theorem C15_witness_replace_offsets_preview_vs_apply :
+    `foobar foobar` / `foobar`, apply (exit 0) writes `foobarbfoobarfoo` / `foo`.  Exactly what the real binary did before d278bf5. -/
+theorem C15_beforefix_replace_offsets_preview_vs_apply :
     let file := b!"foo foo\nfoo\n"
     let hs := planLiteral false file b!"foo" b!"foobar"
     hs.map (fun h => (h.line, h.start, h.stop, h.lineAfter)) =
@@ -213,11 +214,26 @@ theorem C15_witness_newline_in_replacement :
     diffAfterText [h] = some b!"a x\ny b\n" ∧
     lineOf (spec l 0 [toEdit h]) 1 = some b!"a x\n" := by decide
 
-/-- a column inside a character makes `after_line[col..]` panic (only reachable with hand-made plans) -/
-theorem C15_witness_midchar_panics :
+/-- a column inside a character (only reachable with hand-made plans, or on lines that are not valid UTF-8): since ac203f2
+    the splice is skipped; before, `after_line[col..]` panicked -/
+theorem C15_midchar_column_skipped :
     let l := b!"é foo\n"
     let h : Hunk := { line := 1, byteOffset := 1, charOffset := 0, start := 1, stop := 4, content := b!"foo", replace := b!"x",
                       lineBefore := l, lineAfter := l }
-    diffAfterText [h, h] = none := by decide
+    diffAfterText [h, h] = some l := by decide
+
+/-- … and before ac203f2 the same plan made `render_diff` panic (`after_line[col..]`) -/
+theorem C15_beforefix_midchar_panics :
+    let l := b!"é foo\n"
+    let h : Hunk := { line := 1, byteOffset := 1, charOffset := 0, start := 1, stop := 4, content := b!"foo", replace := b!"x",
+                      lineBefore := l, lineAfter := l }
+    diffAfterTextOld [h, h] = none := by decide
+
+/-- checked slicing: the column test itself can no longer panic -/
+theorem startsWithAt_total (s : Bytes) (i : Nat) (p : Bytes) : startsWithAt s i p ≠ none := by
+  unfold startsWithAt
+  split
+  · split <;> simp
+  · simp
 
 end C15
